@@ -7,6 +7,7 @@ N1  ``return next((e for x in D if c), default)``           ->  ``for x in D: if
     ``v = next((e for x in D if c), default)``              ->  ``for x in D: if c: v = e; break`` ; ``else: v = default``
 N2  a list comprehension that calls a helper which must be run in place (a private helper or local closure with
     statement effects / loops)                              ->  the accumulator loop it abbreviates
+N4  ``for x in X: acc.append(x)``                               ->  ``acc.extend(X)``
 N3  a call of such a helper in expression position          ->  hoisted into ``tmp = helper(...)`` right before the statement
                                                                 (the path enumerator then runs the helper's body in place)
 
@@ -142,6 +143,9 @@ class _Ctx:
             return pre + [new]
         if isinstance(st, ast.For):
             pre, it = self.hoist(st.iter, st)
+            ext = _as_extend(st, it)
+            if ext is not None:
+                return pre + [ext]
             new = copy.copy(st)
             new.iter = it
             new.body = self.block(st.body)
@@ -278,6 +282,21 @@ class _Ctx:
             ast.copy_location(n, st)
             ast.fix_missing_locations(n)
         return out
+
+
+def _as_extend(st: ast.For, it: ast.expr) -> Optional[ast.stmt]:
+    """N4  ``for x in X: acc.append(x)``  ->  ``acc.extend(X)``"""
+    if st.orelse or len(st.body) != 1 or not isinstance(st.target, ast.Name):
+        return None
+    b = st.body[0]
+    if not (isinstance(b, ast.Expr) and isinstance(b.value, ast.Call) and isinstance(b.value.func, ast.Attribute) and b.value.func.attr == "append"
+            and isinstance(b.value.func.value, ast.Name) and len(b.value.args) == 1 and not b.value.keywords
+            and isinstance(b.value.args[0], ast.Name) and b.value.args[0].id == st.target.id and b.value.func.value.id != st.target.id):
+        return None
+    new = ast.Expr(value=ast.Call(func=ast.Attribute(value=ast.Name(id=b.value.func.value.id, ctx=ast.Load()), attr="extend", ctx=ast.Load()), args=[it], keywords=[]))
+    ast.copy_location(new, st)
+    ast.fix_missing_locations(new)
+    return new
 
 
 def _replace(e: ast.AST, mapping: Dict[int, str]) -> ast.AST:
